@@ -6,6 +6,7 @@ from ..exprs import dotted, walk_no_nested
 from ..agree import _depends
 from ..sampler_rules import rule_L5
 from ..effects import purity
+from ..rounding import rule_Q5
 
 LEVEL_TEXT = ('Static lockstep rule on the view arrays of posterior(): the same repeat counts '
               'are applied on axis 0, in order, to points, log-likelihoods and blobs; plus '
@@ -71,6 +72,8 @@ def run(ctx):
                'the rounding draw is a double-precision uniform' if ok else
                'the rounding draw uses `dtype=%s`: on a 2^-24 grid P(u < f) is not f, so the '
                'expected multiplicity is not r' % (dotted(dt[0]) if dt else '?'))
+    rule_Q5(ctx)
     ctx.floor('L5', 8, 'view obligations')
-    ctx.not_decided += ['floor(r)/floor(r)+1 with expectation r; equal normalised weights '
-                        '(arithmetic, not code shape)']
+    ctx.floor('Q5', 2, 'multiplicity obligations')
+    ctx.not_decided += ['that NumPy floor / comparison / repeat compute what their names say; '
+                        'equal normalised weights of the output (arithmetic)']
